@@ -657,3 +657,11 @@ pub(crate) use real_map_scenarios;
 pub fn tid_dh() -> TypeId {
     TypeId::of::<DH>()
 }
+pub fn mk_kind(c: u8) -> ErrorKind {
+    match c {
+        0 => ErrorKind::NoDefaultValue,
+        1 => ErrorKind::Io(io::Error::from(io::ErrorKind::NotFound)),
+        2 => ErrorKind::Io(io::Error::from(io::ErrorKind::PermissionDenied)),
+        _ => ErrorKind::Conversion(Box::new(BadErr)),
+    }
+}
